@@ -6,6 +6,7 @@ import (
 	"io"
 	"strings"
 	"sync"
+	"testing/iotest"
 
 	"github.com/alecthomas/participle/v2"
 	"github.com/alecthomas/participle/v2/lexer"
@@ -320,6 +321,14 @@ func c15Child(c *mon.Child) {
 					return b.ParseString(fname, text, append([]participle.ParseOption{participle.Trace(&traceBuf)}, po...)...)
 				}},
 			}
+			// readers with awkward but legal behaviour: data together with io.EOF, one byte at a time
+			eps = append(eps,
+				ep{"Parse(DataErrReader)", func() (interface{}, error) {
+					return b.Parse(fname, iotest.DataErrReader(strings.NewReader(text)), po...)
+				}},
+				ep{"Parse(OneByteReader)", func() (interface{}, error) {
+					return b.Parse(fname, iotest.OneByteReader(strings.NewReader(text)), po...)
+				}})
 			if fname != "" {
 				eps = append(eps, ep{"Parse(\"\", named reader)", func() (interface{}, error) {
 					return b.Parse("", namedReader{strings.NewReader(text), fname}, po...)
@@ -395,6 +404,8 @@ func c15Child(c *mon.Child) {
 				})
 			}
 			try("Lex", func() (lexer.Lexer, error) { return raw.Lex(fname, strings.NewReader(text)) })
+			try("Lex(DataErrReader)", func() (lexer.Lexer, error) { return raw.Lex(fname, iotest.DataErrReader(strings.NewReader(text))) })
+			try("Lex(HalfReader)", func() (lexer.Lexer, error) { return raw.Lex(fname, iotest.HalfReader(strings.NewReader(text))) })
 			if sd, ok := raw.(lexer.StringDefinition); ok {
 				try("LexString", func() (lexer.Lexer, error) { return sd.LexString(fname, text) })
 			}
